@@ -5,7 +5,8 @@ PROBES = ['Variant.operator==', 'Variant.operator=(Variant)', 'Variant.operator=
 
 SPEC = dict(
     level='exploration',
-    rule='case = one swarm-weighted history of 20..120 operations over 4..6 Variant variables: assignment/construction from every alternative (null, bool, double, int, uint, int64, uint64, '
+    rule='(job copies-across-threads-asan: the C09 shared-payload workload - copies of string/list/array/map Variants owned by 2-8 different threads, each checking its own content model while the others take copies, modify through the mutable accessors and reassign - decides independence of copies when the other copy is used by another thread.) '
+         'case = one swarm-weighted history of 20..120 operations over 4..6 Variant variables: assignment/construction from every alternative (null, bool, double, int, uint, int64, uint64, '
          'String, List, Array, HashMap, nested up to 3 levels), copy-construct, operator=(Variant) incl. self, swap, clear, mutable toString/toList/toArray/toMap followed by a mutation of the '
          'returned container (append/prepend/insert/remove/overwrite/clear/resize, or descent into an element and the same again, up to 3 levels), assignment from an element of another or of the '
          'same variable, assignment from the const container view of another variable, typed self-assignment (v = v.toX() through the mutable and v = ((const Variant&)v).toX() through the const accessor, '
@@ -26,7 +27,10 @@ SPEC = dict(
                  'identities in the model instead of the private reference count; all value, coercion and equality oracles are unchanged'],
     technique='tagged-tree value model in plain C structs, ASan/UBSan/LSan',
     exhaustive={Q: False, T: False},
-    jobs=[job('hist', 'h_variant', 'hist', cases={Q: 40000, T: 400000}, procs=16, probes=PROBES)],
+    jobs=[job('hist', 'h_variant', 'hist', cases={Q: 40000, T: 400000}, procs=16, probes=PROBES),
+          # independence of copies owned by different threads (string/list/array/map payloads, mutable accessors and reassignment racing with another
+          # owner's copies): the C09 shared-payload harness, ASan build (content models per thread + use-after-free)
+          job('copies-across-threads-asan', 'h_refcount', 'conc', variant='asan', sources=['harness/h_refcount.cpp'], cases={Q: 1920, T: 16000}, procs=16, timeout={Q: 900, T: 3000}, deadlock=True)],
     floors={Q: dict(ops=1000000, coercions_compared=80000000, equalities_compared=20000000, copy_equalities_checked=400000, cow_clones_of_shared_payload=40000, nested_cow_clones=6000,
                     op_assign_own_element=8000, op_assign_own_value=100000, op_assign_own_value_nested=15000, own_value_inplace_string=20000, own_value_inplace_list=10000, own_value_inplace_array=10000,
                     own_value_inplace_map=10000, **{'set:mutable_access_cells': 120, 'set:op_type_cells': 300, 'set:own_value_cells': 200}),
